@@ -56,7 +56,7 @@ func c16Same(a, b *realLex) string {
 }
 
 func c16Child(c *mon.Child) {
-	nMaps := c.N(200, 600)
+	nMaps := c.N(200, 2500)
 	nInputs := c.N(60, 200)
 	for mi := 0; mi < nMaps; mi++ {
 		r := c.RNG("map", mi)
@@ -100,6 +100,26 @@ func c16Child(c *mon.Child) {
 			c.Violation("", key0, "def.Rules() JSON does not build: "+err.Error()+" | json: "+trunc(string(b), 400), detail)
 		} else {
 			variants = append(variants, variant{"def.Rules()", d2})
+		}
+		// def.Rules() must not hand out state shared with later calls: edit the first result, ask again
+		if j1, err := json.Marshal(def.Rules()); err == nil {
+			first := def.Rules()
+			for st := range first {
+				for i := range first[st] {
+					first[st][i].Pattern = "EDITED"
+					first[st][i].Name = "Edited"
+				}
+			}
+			if j2, err := json.Marshal(def.Rules()); err != nil || string(j1) != string(j2) {
+				c.Violation("", key0, fmt.Sprintf("def.Rules() JSON changed after a caller edited an earlier def.Rules() result: %s vs %s", trunc(string(j1), 300), trunc(string(j2), 300)), detail)
+			}
+			if j3, err := json.Marshal(def); err == nil {
+				if d3, err := c16Roundtrip(j3); err != nil {
+					c.Violation("", key0, "definition JSON does not build after a caller edited a def.Rules() result: "+err.Error(), detail)
+				} else {
+					variants = append(variants, variant{"definition-after-Rules()-edit", d3})
+				}
+			}
 		}
 		names := symNames(def)
 		for _, v := range variants {
